@@ -50,7 +50,8 @@ func TestCallsDiscriminateSiblings(t *testing.T) {
 }
 
 func TestCaseListIsStable(t *testing.T) {
-	if len(allCases) < 2000 {
+	allCases := listFor("quick").cases
+	if len(allCases) < 2000 || len(listFor("thorough").cases) <= len(allCases) {
 		t.Errorf("only %d cases", len(allCases))
 	}
 	seen := map[Input]bool{}
@@ -60,8 +61,8 @@ func TestCaseListIsStable(t *testing.T) {
 		}
 		seen[c] = true
 	}
-	p := permFor(7)
-	q := permFor(7)
+	p := permFor(7, len(allCases))
+	q := permFor(7, len(allCases))
 	for i := range p {
 		if p[i] != q[i] {
 			t.Fatal("permutation not deterministic")
